@@ -71,8 +71,13 @@ def _(values: dict) -> set[int]:
 
 @find_nulls.register
 def _(values: narwhals.Series) -> set[int]:
+    nulls = values.is_null()
+    if values.dtype.is_float():
+        # Backends such as pyarrow distinguish NaN values from nulls; both are
+        # missing values here, as they are for pandas and numpy input.
+        nulls = nulls | values.is_nan().fill_null(True)
     return set(  # pragma: no cover; TODO: experimental
-        values.is_null().arg_true().to_list()
+        nulls.arg_true().to_list()
     )
 
 
